@@ -143,6 +143,13 @@ pub struct CheckpointMetadata {
     pub progress_percent: u8,
 }
 
+/// Upper bound on the number of bytes the decoder may claim while reading one checkpoint file.
+///
+/// A corrupt or hostile length prefix is rejected with an error instead of being passed to the
+/// allocator (which would panic with "capacity overflow" or try to reserve that much memory).
+#[cfg(feature = "checkpointing")]
+pub const MAX_CHECKPOINT_DECODE_BYTES: usize = 1 << 20;
+
 /// Manages checkpoint creation, persistence, and recovery.
 #[cfg(feature = "checkpointing")]
 pub struct CheckpointManager {
@@ -291,9 +298,11 @@ impl CheckpointManager {
         file.read_to_end(&mut encoded)
             .context("Failed to read checkpoint")?;
 
-        let (state, _len): (CheckpointState, usize) =
-            decode_from_slice(&encoded, bincode::config::standard())
-                .context("Failed to deserialize checkpoint")?;
+        let (state, _len): (CheckpointState, usize) = decode_from_slice(
+            &encoded,
+            bincode::config::standard().with_limit::<MAX_CHECKPOINT_DECODE_BYTES>(),
+        )
+        .context("Failed to deserialize checkpoint")?;
 
         // Verify checksum
         let metadata_str = format!(
